@@ -15,7 +15,7 @@ import math
 from hypothesis import strategies as st
 
 from ..runner import Violation
-from ..fasta_guard_c16 import TableGuard, molecule_digest, digest_diff, CODE_TABLE_NAMES
+from ..fasta_guard_c16 import limit_memory, TableGuard, molecule_digest, digest_diff, CODE_TABLE_NAMES
 
 PROPERTY = "C16"
 RULE = ("compounds: Hypothesis draws a flat or one-level grouped item list over {H[1] (0..2 places), H, D, 0..5 other atoms "
@@ -647,6 +647,7 @@ def check_table_molecule(ctx, case):
 
 
 def task_tables(ctx):
+    limit_memory()
     E = env()
     guard = TableGuard(E["fasta"], "c16")
     n = sweep_tables(ctx, E)
@@ -909,11 +910,13 @@ def sweep_tables(ctx, E, grid=None):
 
 
 def task_compounds(ctx, n):
+    limit_memory()
     E = env()
     ctx.search("compounds", case_strategy(E), check_compound, n)
 
 
 def task_molecules(ctx, n):
+    limit_memory()
     E = env()
     S = Session(E)
     # the table molecules at the start, after every generated case (guard), and again at the end
